@@ -1,10 +1,155 @@
-(* C10. Statements only; proofs in AttSrv/AttSrvProofsC10.v. *)
-From BT Require Import Base.ListX AttDb.AttDbModel NQueue.NQueueModel AttSrv.AttSrvModel AttSrv.AttSrvNotifSpec
-  AttSrv.AttSrvProofsC10.
+(* C10  Notifications carry the requested characteristic to subscribed clients only.
+   Statements only; proofs in AttSrv/AttSrvProofsC10.v, AttDb/AttDbNotifProofs.v (shared with C09).
+
+   Model: AttDbModel.v: all_infos / cccd_infos / sorted_infos (= characteristics_with_attribute_indizes /
+   _with_cccd_position / _sorted_by_priority of find_notification_data_in_list), find_notification_data (by
+   value; walks the SORTED list since fix/C08-C11-notification-path), find_notification_by_uuid,
+   find_notification_data_by_index; AttSrvModel.v: notify_by_value / notify_by_uuid / request, att_output. *)
+From BT Require Import Base.ListX AttDb.AttDbModel AttDb.AttDbNotifProofs NQueue.NQueueModel NQueue.NQueueSpec NQueue.NQueueProofs
+  AttSrv.AttSrvModel AttSrv.AttSrvFrame AttSrv.AttSrvNotifSpec AttSrv.AttSrvSpecC10 AttSrv.AttSrvProofsC10 AttSrv.AttSrvNotifExamples AttDb.AttDbNotifIndex.
 Local Open Scope N_scope.
 
-Theorem C10_bad_confirmation_leaves_state :
-  forall c st cid pdu b n st' r,
-    handle_confirmation c st cid pdu b n = Some (st', r) -> len pdu <> 1 -> st' = st.
-Proof. exact confirmation_bad_length_unchanged. Qed.
-Print Assumptions C10_bad_confirmation_leaves_state.
+(* ---- requests. For EVERY configuration and priority declaration: notify( value ) / indicate( value ) for
+   characteristic g queue the index i at which g stands in the priority sorted list, and
+   find_notification_data_by_index( i ) - what the queue consumer l2cap_output uses - gives back the very
+   same (attribute, index) pair *)
+Theorem C10_by_value_request_addresses_the_characteristic :
+  forall c g d, find_notification_data c g = Some d ->
+    find_notification_data_by_index c (snd d) = d
+    /\ exists x, nth_error (sorted_infos c) (N.to_nat (snd d)) = Some x /\ ci_gci x = g /\ fst d = ci_first x + 1.
+Proof. exact by_value_addresses_sorted_index. Qed.
+Print Assumptions C10_by_value_request_addresses_the_characteristic.
+
+(* ... and notify< UUID >() / indicate< UUID >() do the same for the first characteristic with that uuid *)
+Theorem C10_by_uuid_request_addresses_the_characteristic :
+  forall c u d, find_notification_by_uuid c u = Some d ->
+    exists x0, find_char_by_uuid c u = Some x0
+      /\ find_notification_data_by_index c (snd d) = d
+      /\ exists x, nth_error (sorted_infos c) (N.to_nat (snd d)) = Some x /\ ci_gci x = ci_gci x0 /\ fst d = ci_first x + 1.
+Proof. exact by_uuid_addresses_sorted_index. Qed.
+Print Assumptions C10_by_uuid_request_addresses_the_characteristic.
+
+(* ---- repeated requests before the transmission give one PDU: the queue is a set (C12, any level sizes,
+   any operation sequence: clause newly_queued / deq_pending of the monitor of NQueueSpec.v: a request that
+   is already pending is not added again, a dequeued request is removed) *)
+Theorem C10_queue_is_a_set :
+  forall sizes ops, wf_sizes sizes -> NQueueSpec.monitor sizes (NQueueModel.run (NQueueModel.init sizes) ops) = None.
+Proof. exact monitor_accepts_model. Qed.
+Print Assumptions C10_queue_is_a_set.
+
+(* ---- transmission. For the queue entry (kd, i), any configuration, any state: l2cap_output produces a PDU
+   only if the connection's CCCD bits at store position i contain the bit of kd (i is the position the CCCD
+   attribute of the i-th characteristic of the sorted list uses: C09_cccd_position_is_the_notification_index);
+   the PDU is 1B / 1D, the handle of the attribute that find_notification_data_by_index( i ) names and the
+   bytes attribute.access( read ) returns for it NOW, for at most min( buffer, negotiated MTU ) - 3 bytes *)
+Theorem C10_transmitted_pdu :
+  forall c st cid n st' rs k q1 kd i,
+    get_conn st cid = Some k ->
+    NQueueModel.step (nq k) Dequeue = (q1, OEntry (Some (kd, i))) ->
+    att_output c st cid n = Some (st', rs) -> rs <> [] ->
+    let ai := fst (find_notification_data_by_index c (N.of_nat i)) in
+    negb (N.land (cccd_get (cccd k) (N.of_nat i)) (kbit kd) =? 0) = true
+    /\ exists a s1 d,
+         attribute_at c ai = Some a
+         /\ access_read c (set_conn st cid (mkConn (client_mtu k) (cccd k) (encrypted k) (pairing k) q1)) cid a ai 0
+                        (N.min n (negotiated_mtu c k) - 3) = Some (s1, Success, d)
+         /\ rs = (match kd with KNotif => 27 | KInd => 29 end) :: le16 (handle_by_index c ai) ++ d.
+Proof. exact att_output_pdu. Qed.
+Print Assumptions C10_transmitted_pdu.
+
+(* ---- the attribute that is read IS the value attribute of that characteristic: the full statement is
+   FALSE of the code. find_notification_data_in_list adds a service's own attributes (service declaration,
+   includes) to first_attribute_index only through the FIRST characteristic of the service, so a service
+   without characteristics shifts the index of every later characteristic (known finding
+   C10-empty-service-shifts-notification-attribute, corpus/C10/empty_service.trace) *)
+Definition C10_right_characteristic_full : Prop := right_characteristic_full.
+
+Theorem C10_right_characteristic_refuted : ~ C10_right_characteristic_full.
+Proof.
+  intros H. assert (W : wf cfg_emptysvc_mtu23) by (vm_compute; reflexivity).
+  specialize (H _ W). vm_compute in H. discriminate H.
+Qed.
+Print Assumptions C10_right_characteristic_refuted.
+
+(* the implementation's behaviour on the witness: the indication carries handle 3 and the bytes of the
+   characteristic DECLARATION (3a 04 00 00 2a) instead of handle 4 and the value *)
+Theorem C10_empty_service_witness :
+  map snd (srv_run cfg_emptysvc_mtu23 (srv_init cfg_emptysvc_mtu23)
+             [OpNotify false KInd 0; OpIn 0 [18; 5; 0; 2; 0] 512; OpOut 0 512])
+  = [OBits [true; true; true]; OBytes [19]; OBytes [29; 3; 0; 58; 4; 0; 0; 42]]
+  /\ monitor10 cfg_emptysvc_mtu23 (srv_run cfg_emptysvc_mtu23 (srv_init cfg_emptysvc_mtu23)
+             [OpNotify false KInd 0; OpIn 0 [18; 5; 0; 2; 0] 512; OpOut 0 512]) = Some (2%nat, t10_wrong_characteristic).
+Proof. split; vm_compute; reflexivity. Qed.
+Print Assumptions C10_empty_service_witness.
+
+(* what holds: for EVERY configuration in which every service has at least one characteristic (any
+   priorities, includes, fixed handles, any number of CCCDs): the queue entry i names the value attribute of
+   the i-th characteristic x of the sorted list (global number ci_gci x: the one a by value / by uuid
+   request for it queued, see the first two theorems), and the store position i that l2cap_output tests is
+   the position the CCCD attribute of x (ClientCharacteristicIndex ci_pos x) writes. With C10_transmitted_pdu:
+   the PDU carries the handle and the current bytes of the requested characteristic's value attribute and
+   is sent only to a connection whose CCCD of that characteristic has the bit. *)
+Theorem C10_right_characteristic_partial :
+  forall c i x, all_nonempty (services c) = true -> nth_error (sorted_infos c) i = Some x ->
+    find_notification_data_by_index c (N.of_nat i) = (ci_first x + 1, N.of_nat i)
+    /\ attribute_at c (ci_first x + 1) = Some (AValue (ci_svc x) (ci_char x) (ci_gci x) (ci_pos x))
+    /\ cccd_position c (ci_pos x) = N.of_nat i.
+Proof. exact right_characteristic_nonempty. Qed.
+Print Assumptions C10_right_characteristic_partial.
+
+Theorem C10_right_characteristic_if_no_empty_service :
+  forall c, all_nonempty (services c) = true -> notif_index_ok c = true.
+Proof. exact notif_index_ok_nonempty. Qed.
+Print Assumptions C10_right_characteristic_if_no_empty_service.
+
+(* MISSING: the trace level statement (the monitor accepts every model trace for such configurations): it
+   needs the simulation between the observer and srv_state (pending set = queue bits through the C12
+   abstraction, tracked CCCD bits = store, known values = vals); the theorems above are its ingredients. *)
+Definition C10_monitor_accepts_model_full : Prop :=
+  forall c ops, wf c -> all_nonempty (services c) = true -> monitor10 c (srv_run c (srv_init c) ops) = None.
+
+(* ---- non-vacuity *)
+Example C10_wf_nonvacuous : wf cfg_p4_mtu100 /\ wf cfg_p9_mtu65 /\ wf cfg_emptysvc_mtu23
+  /\ all_nonempty (services cfg_p9_mtu65) = true /\ all_nonempty (services cfg_emptysvc_mtu23) = false.
+Proof. repeat split; vm_compute; reflexivity. Qed.
+
+(* priorities reorder the four CCCDs of cfg_p4_mtu100 (declaration a b c d, sorted c b a d): by value and by
+   uuid requests for c (characteristic 2) queue index 0 and name attribute index 8 = handle 9, the value attribute of c *)
+Example C10_p4_requests :
+  cccd_indices cfg_p4_mtu100 = [2; 1; 0; 3]
+  /\ find_notification_data cfg_p4_mtu100 2 = Some (8, 0)
+  /\ find_notification_by_uuid cfg_p4_mtu100 (U16 10754) = Some (8, 0)
+  /\ find_notification_data cfg_p4_mtu100 0 = Some (2, 2)
+  /\ find_notification_data_by_index cfg_p4_mtu100 2 = (2, 2)
+  /\ handle_by_index cfg_p4_mtu100 8 = 9.
+Proof. repeat split; vm_compute; reflexivity. Qed.
+
+(* the witness of the repaired defect 9 (indicate( c ) with a client subscribed to a only): nothing is sent;
+   the monitor accepts the model and rejects the pre-fix behaviour (1d 03 00 ..: characteristic a) *)
+Example C10_by_value_with_priorities :
+  let ops := [OpNotify false KInd 2; OpIn 2 [18; 4; 0; 2; 0] 512; OpOut 2 101] in
+  map snd (srv_run cfg_p4_mtu100 (srv_init cfg_p4_mtu100) ops) = [OBits [true; true; true]; OBytes [19]; OBytes []]
+  /\ monitor10 cfg_p4_mtu100 (srv_run cfg_p4_mtu100 (srv_init cfg_p4_mtu100) ops) = None
+  /\ monitor10 cfg_p4_mtu100 [(OpNotify false KInd 2, OBits [true; true; true]); (OpIn 2 [18; 4; 0; 2; 0] 512, OBytes [19]);
+                              (OpOut 2 101, OBytes [29; 3; 0; 1; 12; 23; 34])] = Some (2%nat, t10_wrong_characteristic).
+Proof. repeat split; vm_compute; reflexivity. Qed.
+
+Example C10_monitor_rejects :
+  (* not subscribed *)
+  monitor10 cfg_p4_mtu100 [(OpNotify false KNotif 0, OBits [true; true; true]); (OpOut 0 100, OBytes [27; 3; 0; 1; 12; 23; 34])]
+    = Some (1%nat, t10_not_subscribed)
+  (* a second PDU without a new request *)
+  /\ monitor10 cfg_p4_mtu100 [(OpIn 0 [18; 4; 0; 1; 0] 23, OBytes [19]); (OpNotify false KNotif 0, OBits [true; true; true]);
+                              (OpNotify false KNotif 0, OBits [false; false; false]);
+                              (OpOut 0 100, OBytes [27; 3; 0; 1; 12; 23; 34]); (OpOut 0 100, OBytes [27; 3; 0; 1; 12; 23; 34])]
+    = Some (4%nat, t10_duplicate_pdu)
+  (* a stale value *)
+  /\ monitor10 cfg_p4_mtu100 [(OpIn 0 [18; 4; 0; 1; 0] 23, OBytes [19]); (OpSetVal 0 [9; 9; 9; 9], ONone);
+                              (OpNotify false KNotif 0, OBits [true; true; true]); (OpOut 0 100, OBytes [27; 3; 0; 1; 12; 23; 34])]
+    = Some (3%nat, t10_wrong_value).
+Proof. repeat split; vm_compute; reflexivity. Qed.
+
+From BT Require gen.GenAttSrv.
+Example C10_constants_are_the_codes :
+  GenAttSrv.opcode_notification = 27 /\ GenAttSrv.opcode_indication = 29.
+Proof. repeat split; reflexivity. Qed.
